@@ -58,3 +58,18 @@ def re_str(t):
     if k == '*':
         return '(%s)*' % re_str(t[1])
     return '(%s%s%s)' % (re_str(t[1]), k, re_str(t[2]))
+
+
+# ---------------------------------------------------------------- Turing machines
+def tm_obj(c):
+    from gambatools.tm import TM
+    delta = {(p, a): (q, b, d) for (p, a, q, b, d) in c['delta']}
+    return TM(set(c['Q']), set(c['Sigma']), set(c['Gamma']), delta, c['q0'], c['qa'], c['qr'], c['blank'])
+
+
+def tm_text(c):
+    lines = ['states ' + ' '.join(c['Q']), 'initial ' + c['q0'], 'accept ' + c['qa'], 'reject ' + c['qr'],
+             'input_symbols ' + ' '.join(c['Sigma']), 'tape_symbols ' + ' '.join(c['Gamma']), 'blank ' + c['blank']]
+    for (p, a, q, b, d) in c['delta']:
+        lines.append('%s %s %s%s,%s' % (p, q, a, b, d))
+    return '\n'.join(lines)
